@@ -91,7 +91,7 @@ Theorem C15_range_reply_exact : forall i value specs,
                           (match cs with [c] => Some (cont_range_value c (zlen (i_obj i))) | _ => None end)
                           (match cs with [c] => i_ctype i | _ => Some (multipart_ctype (boundary_str (i_key i))) end)
                           (RDone (expected_body (reply_env i cs) (i_obj i) cs) false))
-  \/ (exists roff, reply_run i = plain_output i roff /\ (roff = 0 \/ roff = lowest_offset 0 (map repr specs))).
+  \/ reply_run i = plain_output i.
 Proof. exact reply_run_spec. Qed.
 Print Assumptions C15_range_reply_exact.
 
@@ -118,35 +118,24 @@ Theorem C15_no_or_invalid_range_is_full_200 : forall i,
 Proof. exact reply_without_usable_range. Qed.
 Print Assumptions C15_no_or_invalid_range_is_full_200.
 
-(* full strength ("every 200 answer to a valid Range carries the whole representation") is FALSE for the code as it is *)
-Theorem C15_fallback_200_is_full_refuted :
-  exists i value specs, i_range i = Some value /\ header_specs value = Some specs /\
-    zlen (i_obj i) <= int64_max /\ zlen (i_obj i) <= n_chunks (i_chunks i) /\
-    o_status (reply_run i) = 200 /\ o_content_length (reply_run i) = zlen (i_obj i) /\
-    o_body (reply_run i) <> RDone (i_obj i) false.
-Proof. exact fallback_200_is_full_refuted. Qed.
-Print Assumptions C15_fallback_200_is_full_refuted.
-
-(* what is missing in the partial statement: the case 0 < lowestOffset(0) < (body bytes that came with the headers),
-   which only disk hits produce; there the body is exactly this: *)
-Theorem C15_fallback_200_cut_first_buffer_shape : forall i roff,
-  0 < roff < first_read_size (i_k0 i) (zlen (i_obj i)) ->
-  zlen (i_obj i) <= n_chunks (i_chunks i) ->
-  let bs := first_read_size (i_k0 i) (zlen (i_obj i)) in
-  o_body (plain_output i roff) =
-  RDone (rr_slice (i_obj i) roff (bs - roff) ++ rr_slice (i_obj i) (bs - roff) (zlen (i_obj i) - (bs - roff))) false.
-Proof. exact plain_output_shape. Qed.
-Print Assumptions C15_fallback_200_cut_first_buffer_shape.
-
-Theorem C15_fallback_200_is_full_partial : forall i value specs,
+(* every 200 answer to a valid Range header (complex set, failed If-Range, nothing satisfiable, range_offset_limit)
+   carries the whole representation, whatever came with the headers (memory or disk hit, miss) and for every chunking.
+   This was C15_fallback_200_is_full_refuted / _partial until /repo 414e85a stopped processReplyAccessResult from
+   advancing the first body buffer by lowestOffset(0). *)
+Theorem C15_fallback_200_is_full : forall i value specs,
   i_range i = Some value -> header_specs value = Some specs ->
   zlen (i_obj i) <= int64_max -> zlen (i_obj i) <= n_chunks (i_chunks i) ->
   o_status (reply_run i) = 200 ->
-  i_k0 i = 0%N \/ lowest_offset 0 (map repr specs) = 0 \/
-    first_read_size (i_k0 i) (zlen (i_obj i)) <= lowest_offset 0 (map repr specs) ->
   reply_run i = mkOut 200 (zlen (i_obj i)) None (i_ctype i) (RDone (i_obj i) false).
-Proof. exact reply_200_full_partial. Qed.
-Print Assumptions C15_fallback_200_is_full_partial.
+Proof. exact reply_200_full. Qed.
+Print Assumptions C15_fallback_200_is_full.
+
+Theorem C15_every_200_is_the_full_representation : forall i,
+  zlen (i_obj i) <= int64_max -> zlen (i_obj i) <= n_chunks (i_chunks i) ->
+  o_status (reply_run i) = 200 ->
+  reply_run i = mkOut 200 (zlen (i_obj i)) None (i_ctype i) (RDone (i_obj i) false).
+Proof. exact every_200_is_full. Qed.
+Print Assumptions C15_every_200_is_the_full_representation.
 
 (* --- the hypotheses are satisfiable; concrete values --- *)
 Definition C15_ex_obj : bytes := [10;11;12;13;14;15;16;17;18;19;20;21]%N.
@@ -175,6 +164,13 @@ Example C15_ex_decision :
   build_range_header (mkBuild true 200 false 12 12 false None 0) [(0, 2)] = VIgnore 10 false /\
   build_range_header (mkBuild true 200 false 12 12 true (Some false) 0) [(0, 2)] = VIgnore 7 false.
 Proof. vm_compute. repeat split; reflexivity. Qed.
+(* the former counterexample: disk hit, 10 bytes 0..9, "bytes=5-6,2-3" (ignored as too complex after the first buffer
+   arrived): the body used to be 2..9 8 9 *)
+Example C15_ex_late_ignore :
+  header_specs [98;121;116;101;115;61;53;45;54;44;50;45;51]%N = Some [RRange 5 6; RRange 2 3] /\
+  zlen (i_obj late_ignore_input) <= n_chunks (i_chunks late_ignore_input) /\
+  reply_run late_ignore_input = mkOut 200 10 None None (RDone [0;1;2;3;4;5;6;7;8;9]%N false).
+Proof. exact late_ignore_input_facts. Qed.
 Example C15_ex_within : within 12 (4, 3) /\ 12 <= int64_max.
 Proof. unfold within, int64_max, two63. cbn. lia. Qed.
 Example C15_ex_reply_hyps :
